@@ -19,7 +19,7 @@ from .. import algebra as al
 from ..astutil import dotted, src, walk_local, local_assignments, calls, dominating_guards, conjuncts, op_test
 from ..dispatch import operand_slots
 from ..logic import formula, all_assignments
-from ..report import AnalysisError
+from ..report import AnalysisError, Frag
 from ..terms import Tr, Untranslatable
 from .c02 import paths
 from .c19 import discover_factories, returned_closures
@@ -83,7 +83,7 @@ def _alignment(prog, rep, factories):
     rep.pin("general derivative paths", "R03.1", "compute_jacobian", ok, "row i: expr_i, column j: variables[j]" if ok else "compute_jacobian does not build rows over `variables` in order", loc=cj.loc, detail="general")
     cjf = prog.func("optyx.core.autodiff:compile_jacobian")
     s = src(cjf.node)
-    ok = "result[i, j] = compiled_elements[i][j](x)" in s and "compile_expression(jacobian_exprs[i][j], variables) for j in range(n)" in s and "for i in range(m)" in s
+    ok = Frag(s, "result[i, j] = compiled_elements[i][j](x)", "compile_expression(jacobian_exprs[i][j], variables) for j in range(n)", "for i in range(m)")
     rep.pin("general derivative paths", "R03.1", "compile_jacobian.jacobian_fn", ok, "result[i, j] is the compiled (i, j) entry" if ok else "the general Jacobian closure does not fill result[i, j] from entry (i, j)", loc=cjf.loc, detail="general")
 
 
@@ -184,7 +184,7 @@ def _closures(prog, rep, factories, mode="grad", r_guard="R03.2", r_term="R03.3"
 
 def _const_diag_ok(fi, nm):
     s = src(fi.node)
-    return "np.diag(np.full(n, 2.0)) if is_full else np.zeros((n, n))" in s and "for idx in indices:" in s and "hess[idx, idx] = 2.0" in s
+    return Frag(s, "np.diag(np.full(n, 2.0)) if is_full else np.zeros((n, n))", "for idx in indices:", "hess[idx, idx] = 2.0")
 
 
 def _arm_of(cl, fi):
@@ -298,13 +298,13 @@ def _jacobian_rows(prog, rep):
                    f"answers a row from the variables of .{unguarded[0]} without looking at its element expressions, although .{unguarded[0]} may be a MatrixExpression/VectorExpression (e.g. (X*Y).sum()): every entry comes out as if the elements were plain variables",
                    loc=loc, detail="container-operand")
         if cname == "VectorSum":
-            ok = "Constant(1.0)" in s and "Constant(0.0)" in s and "if var in my_vars" in s and "my_vars = set(self.vector._variables)" in s
+            ok = Frag(s, "Constant(1.0)", "Constant(0.0)", "if var in my_vars", "my_vars = set(self.vector._variables)")
             rep.pin("jacobian_row shape rules", "R03.4", "VectorSum.jacobian_row", ok, "1 for members, 0 otherwise, in the order of `variables`" if ok else "row is not [1 if var in vector else 0 for var in variables]", loc=loc, detail="row")
         elif cname == "LinearCombination":
-            ok = "for i, var in enumerate(self.vector._variables)" in s and "var_to_coeff[var] = float(self.coefficients[i])" in s and "[Constant(var_to_coeff.get(v, 0.0)) for v in variables]" in s
+            ok = Frag(s, "for i, var in enumerate(self.vector._variables)", "var_to_coeff[var] = float(self.coefficients[i])", "[Constant(var_to_coeff.get(v, 0.0)) for v in variables]")
             rep.pin("jacobian_row shape rules", "R03.4", "LinearCombination.jacobian_row", ok, "coefficient by position of the variable in the vector; 0 otherwise" if ok else "coefficients are not matched to variables by their position in the vector", loc=loc, detail="row")
         elif cname == "QuadraticForm":
-            ok = "Q_plus_QT = self.matrix + self.matrix.T" in s and "var_to_idx: dict[Variable, int] = {v: i for i, v in enumerate(vec_vars)}" in s and "coeffs = Q_plus_QT[i, :]" in s and "LinearCombination(coeffs, self.vector)" in s and "i = var_to_idx[var]" in s
+            ok = Frag(s, "Q_plus_QT = self.matrix + self.matrix.T", "var_to_idx: dict[Variable, int] = {v: i for i, v in enumerate(vec_vars)}", "coeffs = Q_plus_QT[i, :]", "LinearCombination(coeffs, self.vector)", "i = var_to_idx[var]")
             rep.pin("jacobian_row shape rules", "R03.4", "QuadraticForm.jacobian_row", ok, "row entry for x_i is ((Q + Q')[i, :]) . x" if ok else "row entry is not LinearCombination((Q + Q.T)[i, :], vector) for the position i of the variable", loc=loc, detail="row")
         elif cname in ("VectorPowerSum", "VectorUnarySum"):
             loops = [n for n in walk_local(m.node) if isinstance(n, ast.For)]
@@ -436,7 +436,7 @@ def _dot_row(rep, m):
                    f"in-left={inL}, in-right={inR}: entry {rs[:50]}" if ok else
                    f"a variable with in-left={inL}, in-right={inR} gets the entry `{rs[:60]}`" + (": the contribution of the other operand is dropped (x[0:2].dot(x[1:3]) gives [2,3,2] instead of [2,4,2])" if inL and inR else ""),
                    loc=f"{m.module.rel}:{taken[1].lineno}", detail=f"partition:{'L' if inL else '-'}{'R' if inR else '-'}")
-    ok = "left_lookup = {left_vars[i]: right_vars[i] for i in range(len(left_vars))}" in s and "right_lookup = {right_vars[i]: left_vars[i] for i in range(len(right_vars))}" in s
+    ok = Frag(s, "left_lookup = {left_vars[i]: right_vars[i] for i in range(len(left_vars))}", "right_lookup = {right_vars[i]: left_vars[i] for i in range(len(right_vars))}")
     rep.pin('DotProduct.jacobian_row', "R03.4", "DotProduct.jacobian_row", ok, "partner element is the element at the same position of the other operand" if ok else "the lookup tables do not pair elements at the same position", loc=m.loc, detail="partner-position")
 
 
@@ -492,20 +492,20 @@ def _fast_paths(prog, rep):
     rep.pin('compile_jacobian fast paths', "R03.5", "compile_jacobian", ok, "the pre-computed Jacobian is used only when every entry is a Constant node (never a Parameter or variable term)" if ok else "the constant fast path is not guarded by `all entries are Constant nodes`", loc=cj.loc, detail="all-constant-guard")
     guarded = any(isinstance(n, ast.If) and src(n.test) == "all_constant" and "constant_jacobian_fn" in src(n) for n in walk_local(cj.node))
     rep.pin('compile_jacobian fast paths', "R03.5", "compile_jacobian", guarded, "constant closure is returned under `if all_constant`" if guarded else "the constant closure is returned outside the `all_constant` guard", loc=cj.loc, detail="constant-closure-guarded")
-    vals = "cast(Constant, jacobian_exprs[i][j]).value for j in range(n)" in s and "for i in range(m)" in s
+    vals = Frag(s, "cast(Constant, jacobian_exprs[i][j]).value for j in range(n)", "for i in range(m)")
     rep.pin('compile_jacobian fast paths', "R03.5", "compile_jacobian", vals, "const_jac[i][j] is the value of entry (i, j)" if vals else "the pre-computed matrix is not filled entry by entry in (i, j) order", loc=cj.loc, detail="constant-values")
     sp = prog.func("optyx.core.autodiff:_is_scaled_variable_pattern")
     t = src(sp.node)
     checks = {
         "length": "if len(jacobian_row) != len(variables):\n        return None" in t,
-        "position-by-position": "zip(jacobian_row, variables)" in t and "expr.right is var" in t and "expr.left is var" in t,
+        "position-by-position": Frag(t, "zip(jacobian_row, variables)", "expr.right is var", "expr.left is var"),
         "common-scale": "elif scale != c:\n                return None" in t,
-        "constant-factor": "isinstance(expr.left, Constant)" in t and "isinstance(expr.right, Constant)" in t,
+        "constant-factor": Frag(t, "isinstance(expr.left, Constant)", "isinstance(expr.right, Constant)"),
         "non-matching=>None": t.count("return None") >= 4,
     }
     for k, v in checks.items():
         rep.pin('compile_jacobian fast paths', "R03.5", "_is_scaled_variable_pattern", v, f"{k} is required" if v else f"the scaled-row fast path does not check: {k}", loc=sp.loc, detail=k)
-    use = "if m == 1:" in s and "pattern = _is_scaled_variable_pattern(jacobian_exprs[0], variables)" in s and "return (scale * x).reshape(1, -1)" in s
+    use = Frag(s, "if m == 1:", "pattern = _is_scaled_variable_pattern(jacobian_exprs[0], variables)", "return (scale * x).reshape(1, -1)")
     rep.pin('compile_jacobian fast paths', "R03.5", "compile_jacobian", use, "scaled-row closure is scale * x for a single row matching the pattern" if use else "the scaled-row closure is not `scale * x` under m == 1 and a matched pattern", loc=cj.loc, detail="scaled-closure")
     # R03.6
     cg = prog.func("optyx.core.compiler:compile_gradient")
